@@ -379,6 +379,30 @@ theorem reclassify_eq [DecidableEq α] (null : α) (e : DExt κ α)
           | some d =>
             cases hk : changeClassK null e.shp (some (c, v)) d <;> simp [hf, hk, errV, Except.map, bind, Except.bind, pure, Except.pure]
 
+/-- **the insertion `_insert(dim, other)` applies to a key, as written in dcmmeta.py**: `_insert_slice` along the slice axis of
+    `self`, else `_insert_non_slice` for another spatial axis, `_insert_sample` for time (3) and vector (4), nothing otherwise —
+    the case distinction of the model's `mergeKey` -/
+theorem insert_dispatch_eq [DecidableEq α] (null : α) (shape : List Nat) (nsl : Option Nat) (d : KeyDict α) (sd : Option Nat)
+    (content : List String) (oshape : List Nat) (onsl : Option Nat) (ovals : List α) (ocls : Option Cls) (dim : Nat) :
+    Py.insert_dispatch null shape nsl d sd content oshape onsl ovals ocls dim =
+      if some dim = sd then Py.insert_slice null shape nsl d sd content oshape onsl ovals ocls
+      else if dim < 3 then Py.insert_non_slice null shape nsl d sd content oshape onsl ovals ocls
+      else if dim = 3 then Py.insert_sample null shape nsl d sd content oshape onsl ovals ocls "time"
+      else if dim = 4 then Py.insert_sample null shape nsl d sd content oshape onsl ovals ocls "vector"
+      else .ok d := by
+  unfold Py.insert_dispatch
+  by_cases h1 : some dim = sd
+  · have h1' : (some dim == sd) = true := by simpa using h1
+    simp [h1, h1']
+  · have h1' : (some dim == sd) = false := by simpa using h1
+    by_cases h2 : dim < 3
+    · simp [h1, h1', h2]
+    · by_cases h3 : dim = 3
+      · simp [h1, h1', h2, h3]
+      · by_cases h4 : dim = 4
+        · simp [h1, h1', h2, h3, h4]
+        · simp [h1, h1', h2, h3, h4]; rfl
+
 /-! the translated methods compute (tests, not theorems) -/
 example : Py.change_class (0 : Nat) [2, 2, 2, 2] (some 2) [(tsamples, [7, 8])] gslices = .ok [(gslices, [7, 7, 8, 8])] := by rfl
 example : Py.insert_slice (0 : Nat) [2, 2, 2, 2] (some 2) [(gslices, [1, 2, 3, 4])] (some 2) ["global", "time"]
